@@ -476,6 +476,19 @@ impl Model {
         if name.chars().count() > 32 || !cols.iter().all(col_is_plain) {
             return Expect::Either;
         }
+        // the catalog tables are tables too: 65,536 rows each
+        for cat in ["_Validation", "_Columns"] {
+            if let Some(t) = self.tables.get(cat) {
+                if t.rows.len() + cols.len() > MAX_ROWS {
+                    return Expect::Err;
+                }
+            }
+        }
+        if let Some(t) = self.tables.get("_Tables") {
+            if t.rows.len() + 1 > MAX_ROWS {
+                return Expect::Err;
+            }
+        }
         // the catalog rows intern strings too
         Expect::Ok
     }
